@@ -831,6 +831,11 @@ func c07GenCreds(c *core.Ctx, n int, shared int, collide bool) ([]c07Cred, strin
 	for len(creds) < n {
 		i := len(creds)
 		name := fmt.Sprintf("%s%02d", []string{"alice", "bob", "carol", "dave", "zoe", "mallory"}[c.Rand.Intn(6)], i)
+		// boundary name lengths on every run: 48/49 (name ‖ nonce[:16] crosses one SHA-256 block), 56, 63 and
+		// the legal maximum 64 — the hint a correct client computes must name such a user too (seeded C07-7)
+		if i%2 == 1 {
+			name += strings.Repeat("x", []int{49, 64, 48, 56, 63}[(i/2)%5]-len(name))
+		}
 		creds = append(creds, c07Cred{Name: name, Pw: fmt.Sprintf("secret-%d-%d", i, c.Rand.Intn(1000))})
 	}
 	if shared > 1 {
